@@ -6,6 +6,7 @@ import (
 	"math"
 	"math/big"
 	"math/rand"
+	"slices"
 	"sort"
 	"strings"
 	"time"
@@ -171,7 +172,7 @@ func runReal(g *realGrid, lp lpoly, ids []int, reqIDs []int, c snap.Config, step
 			}
 			maxX, _ := new(big.Rat).Add(g.dg.MinX, g.dg.Span0).Float64()
 			maxY, _ := new(big.Rat).Add(g.dg.MinY, g.dg.Span0).Float64()
-			devAll := g.deviation(reqIDs[len(reqIDs)-1])
+			devAll := g.deviation(slices.Max(reqIDs))
 			for _, ring := range gp {
 				for _, v := range ring {
 					if v[0] < maxX && v[1] < maxY && (maxX-v[0] <= devAll*1.0000001 || maxY-v[1] <= devAll*1.0000001) {
@@ -179,12 +180,12 @@ func runReal(g *realGrid, lp lpoly, ids []int, reqIDs []int, c snap.Config, step
 					}
 				}
 			}
-			fin := g.dg.level(reqIDs[len(reqIDs)-1])
+			fin := g.dg.level(slices.Max(reqIDs))
 			for _, z := range reqIDs {
 				rec.Lv = append(rec.Lv, lvRec{Z: z, K: fin - g.dg.level(z)})
 				rec.Levels = append(rec.Levels, g.dg.level(z))
 			}
-			dev := g.deviation(reqIDs[len(reqIDs)-1])
+			dev := g.deviation(slices.Max(reqIDs))
 			if math.IsNaN(dev) {
 				rec.DevNano = -1
 			} else {
@@ -419,7 +420,17 @@ func realTrace(args []string) int {
 			}
 		}
 		cfg := snap.Config{KeepPointsAndLines: rng.Intn(2) == 0, IgnoreOutsideGrid: false, ReverseWindingOrder: rng.Intn(3) == 0}
+		ordMode := rng.Intn(6) // the ids are requested in ascending order in two groups out of three, otherwise reversed / shuffled
 		emit := func(v string, reqIDs []int, c snap.Config) {
+			reqIDs = append([]int{}, reqIDs...)
+			if len(reqIDs) > 1 {
+				switch ordMode {
+				case 0:
+					slices.Reverse(reqIDs)
+				case 1:
+					rng.Shuffle(len(reqIDs), func(a, b int) { reqIDs[a], reqIDs[b] = reqIDs[b], reqIDs[a] })
+				}
+			}
 			rec := runReal(g, lp, ids, reqIDs, c, step, ax, ay, kmax, rng)
 			rec.G, rec.V, rec.Tag, rec.Where = *g0+i, v, gname, wh
 			out.put(rec)
